@@ -98,5 +98,7 @@ def apply(c):
             opt_rr is None ==> *final(self) == *old(self),
             opt_rr is Some ==> final(self).opt == Some(opt_rr.unwrap().rdata->OPT_0) && final(self).id == old(self).id
                 && final(self).opcode == old(self).opcode && final(self).z_flags == old(self).z_flags,
+            opt_rr is Some ==> final(self).response_code
+                == rcode_of_code((((opt_rr.unwrap().ttl >> 24u32) as u16) << 4u16) | rcode_code(old(self).response_code)), // @C09:rcode-recombined
 """)
     c.wrap(rel, H_IMPL)
